@@ -17,15 +17,16 @@ for d in sorted(os.listdir(root)):
 n_once = sum(1 for r in rows if r[4] == 'caught')
 n_after = sum(1 for r in rows if r[4] == 'caught-after-strengthening')
 n_ctl = sum(1 for r in rows if r[1] == '(control)')
+n_other = sum(1 for r in rows if r[4].startswith('caught-by-'))
 out = []
 out.append('# Seeded property-breaking changes and controls\n')
 out.append("Written by independent sub-agents that were given only the text of one property and their own scratch worktree of /repo (nothing from /verif). Each directory holds `patch.diff`, the agent's demonstration (a test that fails with the change and passes without it) and `meta.json`. All were confirmed with `tools/seeded.sh` (fresh scratch worktree of /repo HEAD, patch applies, builds, the 93 stable tests pass with the patch) and run against the checks with `VERIF_REPO=<patched worktree>`; /repo itself was never modified. `tools/seeded_all.sh` re-runs every entry against its checks (regression after harness changes); `tools/mkresults.py` writes this file.\n")
-out.append("Verdicts: **caught** = reported by the quick tier as it was when the change arrived; **caught-after-strengthening** = missed (or caught only by another property's check, or at a very low rate) at first, the scenario named in the note was extended, and the quick tier reports it now. Every entry is currently caught. The `refactor-*` controls raise no alarm in any of the 20 checks.\n")
+out.append("Verdicts: **caught** = reported by the quick tier as it was when the change arrived; **caught-after-strengthening** = missed (or caught only by another property's check, or at a very low rate) at first, the scenario named in the note was extended, and the quick tier reports it now. Every entry is currently caught (those marked caught-by-C19-only by the race build, not by the functional oracle of their own property). The `refactor-*` controls raise no alarm in any of the 20 checks.\n")
 out.append('| id | property | change | needs | verdict | checks | note |')
 out.append('|---|---|---|---|---|---|---|')
 for r in rows:
     out.append('| ' + ' | '.join(r) + ' |')
 out.append('')
-out.append('Totals: %d caught at once, %d caught after strengthening, %d controls without alarm.' % (n_once, n_after, n_ctl))
+out.append('Totals: %d caught at once, %d caught after strengthening, %d caught only by the race-detector build of C19 (the property\'s own functional oracle cannot: no preemption inside a computation), %d controls without alarm.' % (n_once, n_after, n_other, n_ctl))
 open(os.path.join(root, 'RESULTS.md'), 'w').write('\n'.join(out) + '\n')
 print('rows', len(rows), n_once, n_after, n_ctl)
